@@ -31,9 +31,8 @@ RULE = ("program variants (RK4, RK6, RK8, RK45, DOP853) x (event off | on with d
         "rhs clause on generated (Hamiltonian, point) pairs; non-trivial = Hamiltonian of degree >= 3 with mixed q-p monomials or cross-DOF coupling and a state "
         "with all six components non-zero; distinct by (Hamiltonian, variant, state)")
 ASSUMPTIONS = [
-    "fixed-step paths and rhs values must agree to rounding amplification: 1e-10*scale",
-    "adaptive paths run the same controller, so they agree to rounding except when a rounding-level difference flips an accept/reject or bisection decision; "
-    "a difference above 1e-9*scale but within 50*(rtol|y|+atol) is classed 'soft' and only reported when more than 20% of a variant's cases are soft; above that bound it is always a violation",
+    "fixed-step paths and rhs values must agree to rounding amplification: 1e-9*scale",
+    "adaptive paths: the step-size controller amplifies rounding-level differences of the error estimate (observed drift ~1e-8 at tol 1e-6 on the unchanged tree) and a bisection decision may flip, so a difference above the strict bound but within 50*(rtol|y|+atol) is classed 'soft' and only reported when at least 2 and more than 30% of the cases of a (variant, binding max_step) group are soft; above that bound it is always a violation",
     "event location: |t_hit difference| <= 10*xtol + 1e-12 and states within |f|*that + 1e-9*scale",
 ]
 logging.disable(logging.CRITICAL)
@@ -96,7 +95,12 @@ def ev_mix(t, y):
     return 0.6 * y[1] - 0.8 * y[4] + 0.02 - 0.01 * t
 
 
-EVENTS = {"q1": ev_q1, "mix": ev_mix}
+def ev_tdep(t, y):
+    # strongly time-dependent section (a moving plane): a stale time argument in one copy changes the bracketing step
+    return y[0] + 0.2 - 0.5 * t
+
+
+EVENTS = {"q1": ev_q1, "mix": ev_mix, "tdep": ev_tdep}
 
 
 # ------------------------------------------------------------------ clause 1
@@ -181,10 +185,12 @@ def run_case(draw):
     tol = draw(st.sampled_from([1e-6, 1e-8, 1e-10]))
     # rtol != atol in half of the cases (a swap of the two in one copy is invisible when they are equal)
     atol = draw(st.sampled_from([tol, tol, tol * 1e-3, tol * 1e-2, tol * 1e2]))
-    ev = draw(st.sampled_from(["off", "mix"]))
+    ev = draw(st.sampled_from(["off", "tdep"]))
+    # a BINDING max_step (the default inf never binds) in a third of the adaptive runs
+    max_step = draw(st.sampled_from([None, None, 0.05, 0.02]))
     direction = draw(st.sampled_from([-1, 0, 1]))
     xtol = draw(st.sampled_from([1e-12, 1e-9]))
-    return {"x0": x0, "T": T, "n": n, "grid": grid, "gs": gs, "tol": tol, "atol": atol, "event": ev, "direction": direction, "xtol": xtol}
+    return {"x0": x0, "T": T, "n": n, "grid": grid, "gs": gs, "tol": tol, "atol": atol, "max_step": max_step, "event": ev, "direction": direction, "xtol": xtol}
 
 
 def _grid(c):
@@ -210,7 +216,10 @@ def eval_diff(H, name, kind, order, c, ctx, soft):
     if kind == "fixed":
         integ = RungeKutta(order=order)
     else:
-        integ = AdaptiveRK(order=order, rtol=c["tol"], atol=c.get("atol", c["tol"]))
+        if c.get("max_step"):
+            integ = AdaptiveRK(order=order, rtol=c["tol"], atol=c.get("atol", c["tol"]), max_step=float(c["max_step"]))
+        else:
+            integ = AdaptiveRK(order=order, rtol=c["tol"], atol=c.get("atol", c["tol"]))
     kw = {}
     variant = "%s:event-%s" % (name, "off" if c["event"] == "off" else "on:dir%+d" % c["direction"])
     if c["event"] != "off":
@@ -250,11 +259,20 @@ def eval_diff(H, name, kind, order, c, ctx, soft):
         elif (a.derivatives is None) != (b.derivatives is None):
             ctx.fail("derivatives-missing-on-one-path:" + variant, payload, "derivatives None on one path only"); return
         worst = max(d, dd)
+        if kind == "adaptive":
+            # controller drift on the unchanged tree is <= ~2% of the tolerance; accept up to 10% of it
+            tl0 = max(c["tol"], c.get("atol", c["tol"]))
+            strict = max(1e-13, 0.1 * tl0) * scale
         if worst <= strict:
             return
+        # adaptive paths: the step-size controller feeds rounding-level differences of the error estimate back into the
+        # step sequence, and on the unchanged tree the two paths are observed to drift apart to ~1e-8 at tol 1e-6 (far
+        # below the tolerance, far above rounding).  Such differences are classed "soft" per (variant, binding max_step)
+        # group and reported only when they are the rule in a group, not the exception.
         tl = max(c["tol"], c.get("atol", c["tol"]))
         if kind == "adaptive" and worst <= 50 * (tl * scale + tl):
-            soft.setdefault(variant, [0, 0, payload, worst])[0] += 1
+            grp = variant + (":binding-max_step" if c.get("max_step") else "")
+            soft.setdefault(grp, [0, 0, payload, worst])[0] += 1
             return
         ctx.fail("trajectory-differs:" + variant + (":derivatives" if dd > d else ""), payload,
                  "max |states_ham - states_generic| = %.3g, derivatives %.3g (strict tolerance %.3g)" % (d, dd, strict))
@@ -284,7 +302,7 @@ def eval_propagate(H, c, ctx):
     twin = ent["twin"]
     y0 = np.array(c["x0"], float)
     for method, order in (("fixed", 4), ("adaptive", 8)):
-        for fwd in (1, -1):
+        for fwd in ((-1,) if ctx.tier == "quick" else (1, -1)):
             variant = "_propagate_dynsys:%s:forward%+d" % (method, fwd)
             payload = {"H": H, "propagate": [method, order, fwd], "run": c}
             out = []
@@ -317,7 +335,10 @@ def run(ctx):
     explore(ctx, "rhs", rhs_case(maxdeg), eval_rhs, ctx.share(ctx.scale(240, 6000)))
     # one closure-compiled rhs per shard is always exercised
     nH = ctx.scale(1, 3)
-    ncases = ctx.scale(8, 60)
+    ncases = ctx.scale(16, 60)
+    # quick tier: each shard compiles only two of the five integrators (every kernel x system x event costs a JIT
+    # compilation); over the 6 shards every integrator is exercised on at least two Hamiltonians
+    ints = INTEGRATORS if ctx.tier != "quick" else [INTEGRATORS[(2 * ctx.shard + k) % len(INTEGRATORS)] for k in range(2)]
     soft = {}
     totals = {}
 
@@ -325,9 +346,10 @@ def run(ctx):
         H = Hcase["H"]
         eval_rhs({"H": H, "pts": Hcase["pts"], "call_rhs": True}, cx, force_rhs=True)
         for c in Hcase["runs"]:
-            for name, kind, order in INTEGRATORS:
+            for name, kind, order in ints:
                 variant = "%s:event-%s" % (name, "off" if c["event"] == "off" else "on:dir%+d" % c["direction"])
-                totals[variant] = totals.get(variant, 0) + 1
+                grp = variant + (":binding-max_step" if (c.get("max_step") and kind == "adaptive" and c["event"] == "off") else "")
+                totals[grp] = totals.get(grp, 0) + 1
                 eval_diff(H, name, kind, order, c, cx, soft)
         for c in Hcase["runs"][: max(2, ncases // 5)]:
             eval_propagate(H, c, cx)
@@ -340,7 +362,7 @@ def run(ctx):
     for variant, (n, _, payload, worst) in soft.items():
         tot = max(1, totals.get(variant, 1))
         ctx.classes["soft-mismatch:" + variant] += n
-        if n > 0.2 * tot and n >= 3:
+        if n > 0.3 * tot and n >= 2:
             ctx.fail("paths-disagree-at-tolerance-level:" + variant, payload,
                      "%d of %d cases differ by more than rounding (worst %.3g) between the Hamiltonian and the generic path" % (n, tot, worst))
 
